@@ -692,6 +692,9 @@ package gocql
 //@   ensures[C04] !soft_panic() ==> result.resultMetadata.flags == int(int32(be32(old(f.buf), 0))) && result.resultMetadata.colCount == int(int32(be32(old(f.buf), 4))) && result.resultMetadata.colCount >= 0
 //@   ensures[C04] !soft_panic() && f.proto >= 4 ==> len(result.pkeyColumns) == int(int32(be32(old(f.buf), 8))) && forall(k, 0 <= k && k < len(result.pkeyColumns), result.pkeyColumns[k] == int(be16(old(f.buf), 12 + 2*k)))
 //@   ensures[C04] !soft_panic() && f.proto < 4 ==> len(result.pkeyColumns) == 0
+// every partition key index is the position of one of the bind markers (the routing key is built by indexing the
+// column list and the bound values with them)
+//@   ensures[C05,C09] !soft_panic() ==> forall(k, 0 <= k && k < len(result.pkeyColumns), 0 <= result.pkeyColumns[k] && result.pkeyColumns[k] < result.resultMetadata.colCount)
 //@   ensures[C04] !soft_panic() && result.resultMetadata.flags&0x04 != 0 ==> len(result.resultMetadata.columns) == 0 && result.resultMetadata.colCount == 0
 //@   ensures[C04] !soft_panic() && result.resultMetadata.flags&0x04 == 0 ==> len(result.resultMetadata.columns) == result.resultMetadata.colCount
 //@   before[C04] readCol: meta.resultMetadata.flags&0x04 == 0 && arg3 == (meta.resultMetadata.flags&0x01 != 0) && (arg3 ==> readString_calls >= 2 && arg4 == meta.keyspace && arg5 == meta.table && meta.keyspace == nth(readString, 1) && meta.table == nth(readString, 2))
@@ -699,12 +702,12 @@ package gocql
 //@   ensures !soft_panic() ==> result.actualColCount == len(result.columns) && result.actualColCount >= 0
 //@   loop 0: invariant 0 <= i && len(pkeys) == pkeyCount
 //@   loop 0: invariant meta.resultMetadata.flags == int(int32(be32(old(f.buf), 0))) && meta.resultMetadata.colCount == int(int32(be32(old(f.buf), 4))) && meta.resultMetadata.colCount >= 0 && f.proto >= 4 && pkeyCount == int(int32(be32(old(f.buf), 8)))
-//@   loop 0: invariant i <= pkeyCount && pkeyCount <= (old(len(f.buf)) - 12) / 2 && f.buf == old(f.buf)[12+2*i:] && forall(k, 0 <= k && k < i, pkeys[k] == int(be16(old(f.buf), 12 + 2*k)))
+//@   loop 0: invariant i <= pkeyCount && pkeyCount <= (old(len(f.buf)) - 12) / 2 && f.buf == old(f.buf)[12+2*i:] && forall(k, 0 <= k && k < i, pkeys[k] == int(be16(old(f.buf), 12 + 2*k)) && pkeys[k] < meta.resultMetadata.colCount)
 //@   loop 1: invariant readCol_calls == i && meta.resultMetadata.flags == int(int32(be32(old(f.buf), 0))) && meta.resultMetadata.colCount == int(int32(be32(old(f.buf), 4))) && meta.resultMetadata.colCount >= 0 && meta.resultMetadata.flags&0x04 == 0
-//@   loop 1: invariant (f.proto >= 4 ==> len(meta.pkeyColumns) == int(int32(be32(old(f.buf), 8))) && forall(k, 0 <= k && k < len(meta.pkeyColumns), meta.pkeyColumns[k] == int(be16(old(f.buf), 12 + 2*k)))) && (f.proto < 4 ==> len(meta.pkeyColumns) == 0)
+//@   loop 1: invariant (f.proto >= 4 ==> len(meta.pkeyColumns) == int(int32(be32(old(f.buf), 8))) && forall(k, 0 <= k && k < len(meta.pkeyColumns), meta.pkeyColumns[k] == int(be16(old(f.buf), 12 + 2*k)) && meta.pkeyColumns[k] < meta.resultMetadata.colCount)) && (f.proto < 4 ==> len(meta.pkeyColumns) == 0)
 //@   loop 1: invariant globalSpec == (meta.resultMetadata.flags&0x01 != 0) && (globalSpec ==> readString_calls >= 2 && meta.keyspace == nth(readString, 1) && meta.table == nth(readString, 2))
 //@   loop 2: invariant readCol_calls == i && meta.resultMetadata.flags == int(int32(be32(old(f.buf), 0))) && meta.resultMetadata.colCount == int(int32(be32(old(f.buf), 4))) && meta.resultMetadata.colCount >= 0 && meta.resultMetadata.flags&0x04 == 0
-//@   loop 2: invariant (f.proto >= 4 ==> len(meta.pkeyColumns) == int(int32(be32(old(f.buf), 8))) && forall(k, 0 <= k && k < len(meta.pkeyColumns), meta.pkeyColumns[k] == int(be16(old(f.buf), 12 + 2*k)))) && (f.proto < 4 ==> len(meta.pkeyColumns) == 0)
+//@   loop 2: invariant (f.proto >= 4 ==> len(meta.pkeyColumns) == int(int32(be32(old(f.buf), 8))) && forall(k, 0 <= k && k < len(meta.pkeyColumns), meta.pkeyColumns[k] == int(be16(old(f.buf), 12 + 2*k)) && meta.pkeyColumns[k] < meta.resultMetadata.colCount)) && (f.proto < 4 ==> len(meta.pkeyColumns) == 0)
 //@   loop 2: invariant globalSpec == (meta.resultMetadata.flags&0x01 != 0) && (globalSpec ==> readString_calls >= 2 && meta.keyspace == nth(readString, 1) && meta.table == nth(readString, 2))
 //@   loop 1: invariant 0 <= i && i <= meta.colCount && len(cols) == meta.colCount && meta.colCount < 1000 && meta.colCount >= 0
 //@   loop 2: invariant 0 <= i && i <= meta.colCount && len(cols) == i && meta.colCount >= 1000
@@ -1399,6 +1402,10 @@ package gocql
 //@   requires routingKeyInfo != nil ==> len(routingKeyInfo.types) == len(routingKeyInfo.indexes)
 //@   requires routingKeyInfo != nil ==> forall(k, 0 <= k && k < len(routingKeyInfo.indexes), 0 <= routingKeyInfo.indexes[k] && routingKeyInfo.indexes[k] < len(values))
 //@   ensures routingKeyInfo != nil && len(routingKeyInfo.indexes) == 1 && result1 == nil ==> Marshal_calls == 1 && result0 == Marshal_ret0
+// every component is the value bound at the partition-key column's position, encoded with that column's type
+//@   before[C09] Marshal: in_loop == -1 ==> arg0 == routingKeyInfo.types[0] && same(arg1, values[routingKeyInfo.indexes[0]])
+//@   before[C09] Marshal: in_loop == 0 ==> arg0 == routingKeyInfo.types[i] && same(arg1, values[routingKeyInfo.indexes[i]])
+//@   loop 0: step same(encoded, Marshal_ret0)
 //@   loop 0: invariant buf != nil
 //@   loop 0: step len(buf.buf) == prev(len(buf.buf)) + 3 + len(encoded) && buf.buf[len(buf.buf)-1] == 0
 //@   loop 0: step len(encoded) <= 65535 ==> be16(buf.buf, prev(len(buf.buf))) == uint16(len(encoded))
@@ -3114,7 +3121,7 @@ package gocql
 // murmur3 tokens are ordered as signed 64-bit integers (a comparison, not the sign of a difference: tokens can be
 // more than 2^63 apart)
 //@ func (m murmur3Token) Less
-//@   props C10
+//@   props C10 C09
 //@   requires typeis(token, murmur3Token)
 //@   modifies nothing
 //@   ensures result == (int64(m) < int64(unbox(token, murmur3Token)))
